@@ -329,6 +329,31 @@ def other_device_case(args):
         shutil.rmtree(other, ignore_errors=True)
 
 
+def dir_output_case(args):
+    """a task whose declared output is a directory that its command creates and fills (four files): the program is killed at a
+    hook point of the finalization; the declared path is then either absent or holds all four files, complete"""
+    (sp, point, seed) = args
+    sc = t3.Scratch()
+    try:
+        sc.plant(sp.files)
+        impl = t3.run_impl(sc, sp, crash="%s:%d" % point, timeout=60)
+        problems = []
+        fs = impl["fs"]
+        for src in [p for p in sp.files]:
+            d = src + ".parts"
+            inside = {os.path.basename(q): v for q, v in fs.items() if os.path.dirname(q) == d and v[0] == "f" and not q.endswith(".audit.json")}
+            if d in fs or inside:
+                want = {"p%d.txt" % k: sp.files[src] + "%d\n" % k for k in (1, 2, 3, 4)}
+                got = {n: v[1] for n, v in inside.items()}
+                if got != want:
+                    problems.append(("partial-directory-output", "killed at %s:%d: the declared output directory %s exists and holds %s of its 4 files%s" % (
+                        point[0], point[1], d, len([n for n in got if got[n] == want.get(n)]), "" if set(got) <= set(want) else " and others")))
+        return {"spec": sp.text(), "bufsize": sp.bufsize, "problems": problems[:2], "point": point, "rc": impl["rc"], "stderr": impl["stderr"][-200:], "yield": None,
+                "ntasks": 2, "wall": impl["wall"], "kind": "directory-output"}
+    finally:
+        sc.close()
+
+
 def run(rep, tier, seed):
     proved = vlib.prove(rep, MODULE, THEOREMS)
     ok, msg = vlib.build_ocaml()
@@ -353,6 +378,13 @@ def run(rep, tier, seed):
     results += [r for r in t3.run_many(write_fault_case, [(seed, i) for i in range(8 if tier == "quick" else 120)]) if r]
     results += t3.run_many(simultaneous_failures_case, [(seed, i) for i in range(4 if tier == "quick" else 30)])
     results += t3.run_many(other_device_case, [(seed, i) for i in range(2 if tier == "quick" else 8)], workers=2)
+    from checks import c03 as _c03
+    dcases = []
+    for k in range(1 if tier == "quick" else 5):
+        dsp = _c03.dir_workflow(rng)
+        dpts, dref = t3.hook_points(dsp, prefixes=("fin.",), rng=rng)
+        dcases += [(dsp, pt, seed) for pt in dpts]
+    results += t3.run_many(dir_output_case, dcases)
     results += t3.run_many(two_instances_case, [(seed, i) for i in range(4 if tier == "quick" else 40)])
     results += t3.run_many(sigpipe_case, [(seed, i) for i in range(4 if tier == "quick" else 40)])
     t3.report_t3(rep, MODULE, proved, results, "T3 crash-point / failure / SIGKILL enumeration")
